@@ -280,6 +280,16 @@ object return a value (case kind `zero`, round 8c) -/
 def zeroClauses (res : String) : List (String × Bool) :=
   [ ("zero_value_no_crash", res != "panic") ]
 
+/-- case kind `envk` (round 8 final): the raw TEXT of a variable against the decode kind of its field. A text that
+envconfig must refuse makes the section's `ApplyEnvVars` return an error AND leaves the section as it was (whole ToJSON
+before = after: `Process` fails before `applyJSONConfig` runs, nothing half-applied); no text makes it panic. A text envconfig
+accepts and the section's own parsing refuses afterwards is NOT held to `kept` here (that object is the refused, half-applied
+object of `env_half_refused`; observed: crdt trusted_peers text `,` gives err with a changed ToJSON, see notes) -/
+def envkClauses (pred : EnvK.Res) (res : String) (kept : Bool) : List (String × Bool) :=
+  [ ("no_crash", res != "panic"),
+    ("env_malformed_refused", pred != .refuse || res == "err"),
+    ("env_decode_refused_keeps_all", pred != .refuse || kept) ]
+
 end Util
 
 end CV.C15
